@@ -3,6 +3,7 @@ package harness
 import (
 	"context"
 	"fmt"
+	"reflect"
 
 	hms "github.com/smarthome-go/homescript/v3/homescript"
 	herrors "github.com/smarthome-go/homescript/v3/homescript/errors"
@@ -94,4 +95,40 @@ func fatalKind(k value.VMFatalExceptionKind) string {
 		return "UncaughtThrow"
 	}
 	return fmt.Sprintf("kind%d", k)
+}
+
+// ---- reflective access to internals the oracles look at ----
+// The harness must keep compiling when a maintainer renames or restructures internal fields:
+// if a field is not there any more, the corresponding invariant is skipped and a probe says so.
+
+// vmCoreCount: len(vm.Cores.Cores).
+func vmCoreCount(vm *runtime.VM) (int, bool) {
+	v := reflect.ValueOf(vm).Elem()
+	cores := v.FieldByName("Cores")
+	if !cores.IsValid() {
+		return 0, false
+	}
+	if cores.Kind() == reflect.Struct {
+		cores = cores.FieldByName("Cores")
+	}
+	if !cores.IsValid() || (cores.Kind() != reflect.Slice && cores.Kind() != reflect.Map) {
+		return 0, false
+	}
+	return cores.Len(), true
+}
+
+// coreLevels: (call depth, operand-stack depth, memory pointer, handler-stack depth) of a core.
+func coreLevels(core *runtime.Core) (call, stack, mem, handlers int, ok bool) {
+	if core == nil {
+		return 0, 0, 0, 0, false
+	}
+	v := reflect.ValueOf(core).Elem()
+	cs, st, mp, hs := v.FieldByName("CallStack"), v.FieldByName("Stack"), v.FieldByName("MemoryPointer"), v.FieldByName("ExceptionCatchLabels")
+	if !cs.IsValid() || !st.IsValid() || !mp.IsValid() || cs.Kind() != reflect.Slice || st.Kind() != reflect.Slice || !mp.CanInt() {
+		return 0, 0, 0, 0, false
+	}
+	if hs.IsValid() && hs.Kind() == reflect.Slice {
+		handlers = hs.Len()
+	}
+	return cs.Len(), st.Len(), int(mp.Int()), handlers, true
 }
